@@ -81,7 +81,7 @@ var msgs = []interface{}{
 }
 
 type bias struct {
-	fail, perm, emit, bad, loop, native, nilbs, guard, typed float64
+	fail, perm, emit, bad, loop, native, nilbs, guard, typed, exotic float64
 }
 
 func p(x float64) bool { return rng.Float64() < x }
@@ -115,11 +115,13 @@ func genOps(b bias, guard bool) []mach.Op {
 		ops = append(ops, mach.Op{Name: "retscalar"})
 	case r < b.fail*0.8:
 		ops = append(ops, mach.Op{Name: "emitbad"})
-	case r < b.fail*0.8+b.loop:
+	case r < b.fail*0.8+b.exotic:
+		ops = append(ops, mach.Op{Name: pickS([]string{"retgetter", "retcyclic"})})
+	case r < b.fail*0.8+b.exotic+b.loop:
 		ops = append(ops, mach.Op{Name: "loop"})
-	case r < b.fail*0.8+b.loop+0.12:
+	case r < b.fail*0.8+b.exotic+b.loop+0.12:
 		ops = append(ops, mach.Op{Name: "retnull"})
-	case r < b.fail*0.8+b.loop+0.2:
+	case r < b.fail*0.8+b.exotic+b.loop+0.2:
 		f := map[string]interface{}{}
 		for i, n := 0, rng.Intn(3); i < n; i++ {
 			f[pickS(bkeys)] = pick(vals)
@@ -750,6 +752,7 @@ var biases = map[string]bias{
 	"step":  {fail: 0.25, perm: 0.15, emit: 0, bad: 0.03, loop: 0.0, native: 0.3, nilbs: 0, guard: 0.35},
 	"frame": {fail: 0.5, perm: 0.15, emit: 0, bad: 0.05, loop: 0.0, native: 0.3, nilbs: 0, guard: 0.4, typed: 0.2},
 	"total": {fail: 0.6, perm: 0.4, emit: 0, bad: 0.1, loop: 0.03, native: 0.4, nilbs: 0.15, guard: 0.5},
+	"exotic": {fail: 0.3, perm: 0.2, emit: 0, bad: 0.0, loop: 0.0, native: 0.2, nilbs: 0.05, guard: 0.5, exotic: 0.5},
 	"emit":  {fail: 0.6, perm: 0.05, emit: 0.2, bad: 0.02, loop: 0.02, native: 0.0, nilbs: 0, guard: 0.4},
 	"perm":  {fail: 0.4, perm: 0.8, emit: 0, bad: 0.0, loop: 0.0, native: 0.5, nilbs: 0, guard: 0.5},
 	"walk":  {fail: 0.2, perm: 0.1, emit: 0.1, bad: 0.02, loop: 0.0, native: 0.3, nilbs: 0.02, guard: 0.3},
